@@ -40,6 +40,14 @@ class RuleResult:
     def fail(self, key, where, msg, witness=None):
         self.findings.append(Finding(self.rule, key, where, msg, witness))
 
+    def undecided(self, key, where, msg):
+        """A small-body inspection met a form it does not recognise and that matches no known-wrong pattern: reported,
+        recorded in the evidence, but not a violation (an unrecognised but correct rewrite must not raise an alarm)."""
+        if not hasattr(self, 'undecided_list'):
+            self.undecided_list = []
+        self.undecided_list.append({'key': '%s:%s' % (self.rule, key), 'where': where, 'msg': msg})
+        self.notes.append('UNDECIDED %s (%s): %s' % (key, where, msg))
+
     def floor(self, name, value, minimum):
         """Fail closed when an extractor silently stops matching."""
         self.counts[name] = value
@@ -56,7 +64,7 @@ class RuleResult:
     def summary(self):
         return {'rule': self.rule, 'title': self.title, 'obligations': self.instances,
                 'distinct_instances': len(self.keys), 'violations': len(self.findings), 'counts': self.counts,
-                'notes': self.notes}
+                'undecided': len(getattr(self, 'undecided_list', [])), 'notes': self.notes}
 
 
 def key_hash(key):
